@@ -282,4 +282,38 @@ theorem list_itemwise (E : Env) (C : Conv) (item : SType) (s : Str)
   · simp only [decode, listRes, hall, if_true, List.filterMap_map]
     rfl
 
+/-! ## 5. named witnesses of the findings (replayed on the real code by the harness) -/
+
+/-- C02-F5 (pinned `count_digits`): the zero `0.0000000` is given 6 fraction digits; repaired: none -/
+theorem countDigits_counterexample :
+    countDigitsDec false ⟨false, 0, 7⟩ = (0, 6) ∧ countDigitsDec true ⟨false, 0, 7⟩ = (0, 0) := by decide
+
+/-- C02-F6: XSD 1.1, years above 9999: leap test on year+1 (elementpath) -/
+theorem leap_year_counterexample :
+    parseDt .date true "10000-02-29".toList = none ∧ isLeap 10000 = true ∧
+    (parseDt .date true "10003-02-29".toList).isSome = true ∧ isLeap 10003 = false := by decide
+
+/-- C02-F7: the duration sub-types check the value, not the literal -/
+theorem duration_lexical_counterexample :
+    (parseDur .dayTimeDuration "P0Y1D".toList).isSome = true ∧
+    (parseDur .yearMonthDuration "P1YT0S".toList).isSome = true := by decide
+
+/-- C02-F11: `==` of date/time objects reads a missing time zone as UTC -/
+theorem timezone_equality_counterexample :
+    dtCompare true ⟨.gDay, 2000, 1, 15, 0, 0, 0, 0, none⟩ ⟨.gDay, 2000, 1, 15, 0, 0, 0, 0, some 0⟩ = some .eq := by
+  decide
+
+/-- time zones accepted by the date/time parsers lie within ±14:00 -/
+theorem timezone_range (s : Str) (z : Int) (h : parseTz s = some (some z)) : -840 ≤ z ∧ z ≤ 840 := by
+  unfold parseTz at h
+  split at h
+  · simp at h
+  · simp at h; omega
+  · split at h
+    · simp at h
+      obtain ⟨hc, hz⟩ := h
+      split at hz <;> omega
+    · simp at h
+  · simp at h
+
 end XsVerif.Props.C02
